@@ -1,16 +1,164 @@
 /-
-Helper lemmas for C04: a containment edge the table covers is active under every option set; along the
-property's containment relation an accepted document has no violated rule (outside the exclusion classes).
+Helper lemmas for C04: a containment edge the table covers is active under every option set; the example
+objects the code visits under an accepted (or conforming) node are well-formed; along the property's
+containment relation an accepted document has no violated rule (outside the exclusion classes).
 -/
 import KinModel.Lemmas.C04Local6
 namespace KinModel.DocValidate
 
-/-- no containment edge of the property is one of the structurally guarded `examples` edges -/
-theorem specEdges_unguarded : specEdges.all (fun e => e.2 != "examples") = true := by decide
-
 theorem validate_iff' (T : Table) (o : Opts) (d : Doc) :
-    validate T o d = true ↔ ∀ n, Reach (active T o) d n → localOK T o n = true :=
+    validate T o d = true ↔ ∀ n, Reach (active T o) d n → localOKV T o n = true :=
   descend_iff _ _ d
+
+theorem Reach.trans {act : Act} {a b c : Doc} (h1 : Reach act a b) (h2 : Reach act b c) : Reach act a c := by
+  induction h1 with
+  | self => exact h2
+  | step hm he _ ih => exact .step hm he (ih h2)
+
+theorem mem_kidsAt {d : Doc} {pos : String} {c : Doc} (h : c ∈ d.kidsAt pos) : (pos, c) ∈ d.kids := by
+  unfold Doc.kidsAt at h
+  simp only [List.mem_map, List.mem_filter, decide_eq_true_eq] at h
+  obtain ⟨⟨p, c'⟩, ⟨hm, hp⟩, rfl⟩ := h
+  simp only at hp
+  subst hp
+  exact hm
+
+/-- where an entry of `exampleEntries` comes from -/
+theorem mem_exampleEntries {d : Doc} {a : Attrs} (h : a ∈ exampleEntries d) :
+    ∃ r e, ("examples", r) ∈ d.kids ∧ r.kind = .exampleRef ∧ ("value", e) ∈ r.kids ∧ e.kind = .example ∧ e.attrs = a := by
+  unfold exampleEntries at h
+  cases hf : d.attrs.flag "hasExamples" with
+  | false => simp [hf] at h
+  | true =>
+  simp only [hf, Bool.not_true, Bool.false_eq_true, if_false, List.mem_filterMap] at h
+  obtain ⟨r, hr, hx⟩ := h
+  by_cases hk : r.kind = .exampleRef
+  · simp only [hk, if_true] at hx
+    cases hv : r.kidsAt "value" with
+    | nil => simp [hv] at hx
+    | cons e es =>
+      simp only [hv] at hx
+      by_cases he : e.kind = .example
+      · simp only [he, if_true, Option.some.injEq] at hx
+        exact ⟨r, e, mem_kidsAt hr, hk, mem_kidsAt (by rw [hv]; simp), he, hx⟩
+      · simp [he] at hx
+  · simp [hk] at hx
+
+theorem shape_of_rulesOK (o : Opts) (e : Doc) (hk : e.kind = .example) (h : rulesOK o e = true) :
+    exampleShapeOK e.attrs = true := by
+  cases e with | node k a kids =>
+  simp only [Doc.kind] at hk
+  subst hk
+  simp (disch := decide) only [rulesOK, violations, Doc.kind, Doc.attrs, List.all_append, all_when, enabled_plain,
+    Bool.and_eq_true] at h
+  have h1 := h.1.1
+  have h2 := h.1.2
+  unfold exampleShapeOK
+  simp only [Doc.attrs]
+  by_cases hx : a.str "externalValue" = "" <;> cases hv : hasVal a <;> simp_all
+
+theorem shape_of_localOK (T : Table) (o : Opts) (e : Doc) (vs : List Bool) (hk : e.kind = .example)
+    (h : localOK T o e vs = true) : exampleShapeOK e.attrs = true := by
+  cases e with | node k a kids =>
+  simp only [Doc.kind] at hk
+  subst hk
+  simp only [localOK, Doc.kind, Doc.attrs] at h
+  unfold exampleShapeOK
+  simp only [Doc.attrs]
+  by_cases hx : a.str "externalValue" = "" <;> cases hv : hasVal a <;> simp_all
+
+/-- in a conforming document the example objects under every node are well-formed -/
+theorem examplesWFor_of_rules (o : Opts) (d : Doc) (h : ∀ n, Reach allAct d n → rulesOK o n = true) :
+    examplesWFor o d = true := by
+  have : examplesWF d = true := by
+    unfold examplesWF
+    rw [List.all_eq_true]
+    intro a ha
+    obtain ⟨r, e, hr, _, he, hke, rfl⟩ := mem_exampleEntries ha
+    cases d with | node k aa kids =>
+    cases r with | node rk ra rkids =>
+    have hre : Reach allAct (.node k aa kids) e := .step hr rfl (.step he rfl .self)
+    exact shape_of_rulesOK o e hke (h e hre)
+  simp [examplesWFor, this]
+
+/-- in a document the model accepts, the example objects the code visits under a node are well-formed -/
+theorem examplesWFor_of_valid (T : Table) (o : Opts) (hT : TableOK T = true) (d : Doc)
+    (hv : ∀ n, Reach (active T o) d n → localOKV T o n = true) : examplesWFor o d = true := by
+  unfold examplesWFor
+  cases hd : o.exDisabled with
+  | true => rfl
+  | false =>
+    cases hs : d.attrs.flag "hasSchema" with
+    | false => rfl
+    | true =>
+      cases hk : exampleKinds.contains d.kind with
+      | false => rfl
+      | true =>
+       cases hx : d.attrs.flag "hasExample" with
+       | true => rfl
+       | false =>
+        have : examplesWF d = true := by
+          unfold examplesWF
+          rw [List.all_eq_true]
+          intro a ha
+          obtain ⟨r, e, hr, hkr, he, hke, rfl⟩ := mem_exampleEntries ha
+          cases d with | node k aa kids =>
+          cases r with | node rk ra rkids =>
+          simp only [Doc.kind] at hkr hk
+          subst hkr
+          simp only [Doc.attrs] at hs hx
+          have hkm : k ∈ exampleKinds := by simpa using hk
+          have hf := tableFacts T hT
+          have a1 : active T o k aa "examples" = true := by
+            unfold active
+            rw [anyHolds_as o aa _ _ (hf.ex k hkm).2.2]
+            simp [hd, hs, hx]
+          have a2 : active T o .exampleRef ra "value" = true := by
+            unfold active
+            exact anyHolds_of_nil o ra _ hf.exRef
+          have hre : Reach (active T o) (.node k aa kids) e := .step hr a1 (.step he a2 .self)
+          exact shape_of_localOK T o e _ hke (hv e hre)
+        simp [this]
+
+/-- the example objects the code visits under a node are well-formed as soon as every node the code reaches
+from it violates no rule in force -/
+theorem examplesWFor_of_reached_rules (T : Table) (o : Opts) (hT : TableOK T = true) (d : Doc)
+    (hv : ∀ n, Reach (active T o) d n → rulesOK o n = true) : examplesWFor o d = true := by
+  unfold examplesWFor
+  cases hd : o.exDisabled with
+  | true => rfl
+  | false =>
+    cases hs : d.attrs.flag "hasSchema" with
+    | false => rfl
+    | true =>
+      cases hk : exampleKinds.contains d.kind with
+      | false => rfl
+      | true =>
+       cases hx : d.attrs.flag "hasExample" with
+       | true => rfl
+       | false =>
+        have : examplesWF d = true := by
+          unfold examplesWF
+          rw [List.all_eq_true]
+          intro a ha
+          obtain ⟨r, e, hr, hkr, he, hke, rfl⟩ := mem_exampleEntries ha
+          cases d with | node k aa kids =>
+          cases r with | node rk ra rkids =>
+          simp only [Doc.kind] at hkr hk
+          subst hkr
+          simp only [Doc.attrs] at hs hx
+          have hkm : k ∈ exampleKinds := by simpa using hk
+          have hf := tableFacts T hT
+          have a1 : active T o k aa "examples" = true := by
+            unfold active
+            rw [anyHolds_as o aa _ _ (hf.ex k hkm).2.2]
+            simp [hd, hs, hx]
+          have a2 : active T o .exampleRef ra "value" = true := by
+            unfold active
+            exact anyHolds_of_nil o ra _ hf.exRef
+          have hre : Reach (active T o) (.node k aa kids) e := .step hr a1 (.step he a2 .self)
+          exact shape_of_rulesOK o e hke (hv e hre)
+        simp [this]
 
 /-- a containment edge of the property that the table covers is followed under every option set -/
 theorem covered_active (T : Table) (o : Opts) (k : Kind) (a : Attrs) (pos : String)
@@ -19,29 +167,25 @@ theorem covered_active (T : Table) (o : Opts) (k : Kind) (a : Attrs) (pos : Stri
     cases hcon : (rowsFor T.edges k pos).contains [] with
     | true => rfl
     | false => exact absurd (List.mem_filter.mpr ⟨hs, by show (!(rowsFor T.edges k pos).contains []) = true; rw [hcon]; rfl⟩) hc
-  have hne : (pos != "examples") = true := by
-    have := List.all_eq_true.mp specEdges_unguarded (k, pos) hs
-    simpa using this
-  unfold active structGuard
-  rw [anyHolds_of_nil o _ hrow]
-  have : (pos = "examples") = False := by simpa using hne
-  simp [this]
+  unfold active
+  exact anyHolds_of_nil o a _ hrow
 
 theorem reach_rules (T : Table) (o : Opts) (hT : TableOK T = true) {d n : Doc} (hr : Reach specAct d n) :
-    (∀ m, Reach specAct d m → exclNode (uncovered T) o m = false) → validate T o d = true → rulesOK o n = true := by
+    (∀ m, Reach specAct d m → exclNode T (uncovered T) o m = false) → validate T o d = true → rulesOK o n = true := by
   induction hr with
   | @self d =>
     intro hex hv
-    have hl : localOK T o d = true := (validate_iff' T o d).mp hv d .self
+    have hall := (validate_iff' T o d).mp hv
+    have hl : localOKV T o d = true := hall d .self
     have he := hex d .self
     unfold exclNode at he
     rw [Bool.or_eq_false_iff] at he
-    rw [← localOK_eq_rules T o d hT he.1]; exact hl
+    rw [← localOKV_eq_rules T o d hT he.1 (examplesWFor_of_valid T o hT d hall)]; exact hl
   | @step k a kids pos c n hm he hr' ih =>
     intro hex hv
     have hspec : (k, pos) ∈ specEdges := by simpa [specAct] using he
     by_cases hu : (k, pos) ∈ uncovered T
-    · -- the code lacks this edge: the exclusion says nothing below it violates a rule
+    · -- the code does not report along this edge: the exclusion says nothing below it violates a rule
       have hb := hex (.node k a kids) .self
       unfold exclNode at hb
       rw [Bool.or_eq_false_iff] at hb
@@ -51,7 +195,7 @@ theorem reach_rules (T : Table) (o : Opts) (hT : TableOK T = true) {d n : Doc} (
       have hclean : specCleanB o c = true := by
         have hkid' : (k, pos) ∈ uncovered T → specCleanB o c = true := by simpa [Doc.kind] using hkid
         exact hkid' hu
-      exact (descend_iff _ _ c).mp hclean n hr'
+      exact (descend_plain_iff _ _ c).mp hclean n hr'
     · have hact := covered_active T o k a pos hspec hu
       have hvc : validate T o c = true := by
         unfold validate
